@@ -165,8 +165,8 @@ def check_reader(ctx, F, A):
             viol(ctx, b, why[:40], "DecoderReader::read: " + why)
     if kinds != {"byte", "source-error"}:
         viol(ctx, b, "coverage", "DecoderReader::read: expected byte paths and source-error paths, saw %r" % kinds)
-    if not CFG(b).loops():
-        viol(ctx, b, "loop", "DecoderReader::read has no loop")
+    # (no separate "has a loop" rule: nothing can be returned in monitor state 1 = Ok(false), so the byte loop must continue,
+    #  wherever it is written)
 
 
 def check_iterator(ctx, F, A):
